@@ -49,3 +49,41 @@ package certificates
 
 //@ func LoadPrivateKey
 //@   modifies nothing
+//@   ensures TRUSTED_NONNIL: result.1 == nil ==> result.0 != nil
+//@ func LoadCertificate
+//@   modifies nothing
+//@   ensures TRUSTED_NONNIL: result.1 == nil ==> result.0 != nil
+//@ func LoadRequest
+//@   modifies nothing
+//@   ensures TRUSTED_NONNIL: result.1 == nil ==> result.0 != nil
+
+// ---- C20: the command line tooling hands the requested names to the request unchanged, signs the loaded request
+// ---- with the loaded authority, refuses a request without names and saves what it signed
+//@ func (MakeReqConfig).Run
+//@   tags C20
+//@   site call MakeReq ASREQUESTED: [C20] requires arg0 == opts && opts.DNSNames == mr.DNSName && opts.NodeIDs == mr.NodeID && opts.CommonName == mr.CommonName
+//@        && arg1 == mr.InKey && arg2 == mr.OutKey && arg3 == mr.OutReq && len(opts.IPAddresses) == len(mr.IPAddress)
+//@   site call append PARSEDIP: [C20] requires len(arg1) == 1 && arg1[0] == ip && ip != nil && ip == lastcall("ParseIP", 0)
+//@   site call ParseIP EACHADDRESS: [C20] requires arg0 == ipstr
+//@   loop range mr.IPAddress
+//@     invariant COUNT: [C20] len(opts.IPAddresses) == rangeindex + 1 && opts != nil && fresh(opts) && opts.DNSNames == mr.DNSName && opts.NodeIDs == mr.NodeID && opts.CommonName == mr.CommonName
+
+//@ func SignReq
+//@   tags C20
+//@   requires opts != nil
+//@   site call LoadCertificate CACERT: [C20] requires arg0 == caCrtPath
+//@   site call LoadPrivateKey CAKEY: [C20] requires arg0 == caKeyPath
+//@   site call LoadRequest THEREQUEST: [C20] requires arg0 == reqPath
+//@   site call GetReqNames ITSNAMES: [C20] requires arg0 == req && req == lastcall("LoadRequest", 0)
+//@   site call SignCertReq W1: [C20] requires arg0 == req && arg1 == ca && arg2 == opts
+//@   site call SignCertReq W2: [C20] requires ca.Certificate == lastcall("LoadCertificate", 0)
+//@   site call SignCertReq W3: [C20] requires ca.PrivateKey == lastcall("LoadPrivateKey", 0)
+//@   site call SignCertReq W4: [C20] requires lastcall("LoadCertificate", 1) == nil && lastcall("LoadPrivateKey", 1) == nil && lastcall("LoadRequest", 1) == nil
+//@   site call SignCertReq W5: [C20] requires len(names.DNSNames) > 0 || len(names.IPAddresses) > 0 || len(names.NodeIDs) > 0
+//@   site call SaveToPEMFile@1 THECERT: [C20] requires arg0 == certOut && len(arg1) == 1 && arg1[0] == box(lastcall("SignCertReq", 0)) && lastcall("SignCertReq", 1) == nil
+
+//@ func GetReqNames
+//@   tags C20
+//@   modifies nothing
+//@   site call ReceptorNames FROMREQUEST: [C20] requires arg0 == request.Extensions
+//@   ensures NAMES: [C20] result.1 == nil ==> result.0 != nil && result.0.NodeIDs == lastcall("ReceptorNames", 0) && result.0.DNSNames == request.DNSNames && result.0.IPAddresses == request.IPAddresses
